@@ -36,4 +36,15 @@ CLAIMS["C14"] = {
     "technique": "constant evaluation of lookup tables against embedded specifications + dataflow-role orientation checks (AST)",
 }
 
+CLAIMS["C16"] = {
+    "text": "Decides, against the SAM/BAM specification embedded in the checker, that every field getter of the BAM extractor (identified by its position in the getter table = "
+            "BamEntry field order) reads the specified offset, width and type, that the derived variable-field offsets (cigar = name + l_read_name, seq = cigar + 4*n_cigar_op, "
+            "qual = seq + (l_seq+1)//2, name without NUL) are those of the specification (symbolic normal forms with helper methods inlined), that the 4-bit base code, CIGAR op code, "
+            "op/length split, reference-consuming set, nibble order, strand bit, magic and BGZF EOF block equal the specification, that the interval view maps Bed6 fields to the right "
+            "BAM fields, that selection/compaction treat starts and ends alike and no reachable method rebinds state behind memoised offsets, that header bytes are replayed from recorded "
+            "reads, and (dtype inference) that no arithmetic on a record field is carried out in an 8/16-bit type. Constants against a specification are exactly what static analysis decides.",
+    "note": _NOTE + "Embedded specification: SAMv1 section 4.2. Not decided: record chaining across chunk boundaries beyond the chain formula, optional tags, BGZF decompression.",
+    "technique": "symbolic normal forms of field getters vs. an embedded format specification + constant evaluation of code tables + dtype-width inference (AST)",
+}
+
 NOT_APPLICABLE = {}
